@@ -6,7 +6,7 @@ ALIASES = {
 UNITS = [
     dict(name='output_size', enforce='World_properties_output_size', contracts='c01_output_size.c',
          targets=[dict(tu=WORLD_CC, qual='WorldBuilder::World::properties_output_size')],
-         aliases=ALIASES, defines={'MAXP': 8}, defines_thorough={'MAXP': 64},
+         aliases=ALIASES, defines={'MAXP': 8, 'WB_VEC_CAP': 4, 'WB_CAP_vec_arr_uint_3': 8}, defines_thorough={'MAXP': 64, 'WB_CAP_vec_arr_uint_3': 64},
          expect_fail=['REACHABILITY-GUARD'],
          loops={('World_properties_output_size', 1): dict(
              contract='__CPROVER_assigns(wb_i1, n_output_entries, g_prefix, wb_thrown)\n'
@@ -14,4 +14,22 @@ UNITS = [
                       '__CPROVER_loop_invariant(g_prefix <= wb_i1 * 42949672950ul)\n'
                       '__CPROVER_decreases(wb_r1->n - wb_i1)',
              begin='g_prefix += WIDTH(property);')}),
+    dict(name='props2d', enforce='World_properties_2d', contracts='c01_2d.c',
+         targets=[dict(tu=WORLD_CC, qual='WorldBuilder::World::properties', sig='std::array<double, 2>', cname='World_properties_2d')],
+         aliases=ALIASES, stub=['World_properties_3d'], outline_fp=True,
+         replace=['World_properties_3d', 'CoordinateSystems_Interface_natural_coordinate_system',
+                  'CoordinateSystems_Interface_natural_to_cartesian_coordinates'],
+         defines={'MAXP': 4, 'WB_VEC_CAP': 4, 'WB_CAP_vec_arr_uint_3': 4, 'WB_CAP_vec_double': 48},
+         defines_thorough={'MAXP': 8, 'WB_CAP_vec_arr_uint_3': 8, 'WB_CAP_vec_double': 96},
+         expect_fail=['REACHABILITY-GUARD'],
+         loops={('World_properties_2d', 1): dict(
+             contract='__CPROVER_assigns(wb_i1, counter, results)\n'
+                      '__CPROVER_loop_invariant(wb_i1 <= wb_r1->n && wb_r1 == properties && counter == g_pre[wb_i1] && results.n == g_total && counter <= g_total)\n'
+                      '__CPROVER_loop_invariant((wb_g_slot < g_total && !g_invel) ==> SAMEL(results.data[wb_g_slot], g_before))\n'
+                      '__CPROVER_loop_invariant((wb_g_slot < g_total && g_invel && g_veloff >= counter) ==> '
+                      '(SAMEL(results.data[g_veloff], g_v0) && SAMEL(results.data[g_veloff + 1], g_v1) && SAMEL(results.data[g_veloff + 2], g_v2)))\n'
+                      '__CPROVER_loop_invariant((wb_g_slot < g_total && g_invel && g_veloff < counter) ==> '
+                      '(SAMEL(results.data[g_veloff], g_proj) && SAMEL(results.data[g_veloff + 1], g_v2) && results.data[g_veloff + 2] == 0.0))\n'
+                      '__CPROVER_decreases(wb_r1->n - wb_i1)',
+             pre='g_proj = E_add_mul_a_a_mul_a_a(this_->surface_coord_conversions.point.e[0], g_v0, this_->surface_coord_conversions.point.e[1], g_v1);')}),
 ]
